@@ -157,7 +157,9 @@ func checkVersionMatrix(c *fw.Ctx, rule string, fields map[string]bool) *version
 		for _, ver := range t.versions {
 			exp, ok := specCell(ver, f)
 			got := t.cell(ver, f)
-			if !ok || !strings.HasPrefix(exp, "gmsl.") || !strings.HasPrefix(got, "gmsl.") {
+			// the registered value may also be a method expression or method value of an
+			// unexported type ("(gmsl.T).m")
+			if !ok || !strings.HasPrefix(exp, "gmsl.") || !(strings.HasPrefix(got, "gmsl.") || strings.HasPrefix(got, "(gmsl.") || strings.HasPrefix(got, "(*gmsl.")) {
 				continue
 			}
 			expNames[exp] = true
@@ -179,6 +181,9 @@ func checkVersionMatrix(c *fw.Ctx, rule string, fields map[string]bool) *version
 			}
 			for got := range gots {
 				short := strings.TrimPrefix(got, "gmsl.")
+				if i := strings.LastIndex(short, ")."); i >= 0 {
+					short = short[i+2:] // the method name of a method expression
+				}
 				exported := len(short) > 0 && short[0] >= 'A' && short[0] <= 'Z'
 				if len(bwd[got]) != 1 || (got != exp && (expNames[got] || exported || c.P.Func(strings.TrimPrefix(exp, "gmsl.")) != nil)) {
 					okAll = false
@@ -350,6 +355,36 @@ type limitSite struct {
 	limit      string
 	persistSet bool
 	at         ssa.Instruction // the refusal itself (a return, or a store into a result)
+	subject    string          // what was measured, resolved through the frames ("" if not a plain len/rune count of a value)
+}
+
+// measuredSubject names the event field whose length is compared, following helper parameters
+// to the caller's argument: "the room id", "the sender", "the type", "the state key", or the
+// rendered value when it is none of those.
+func measuredSubject(v ssa.Value, fr *fw.Frame) string {
+	for i := 0; i < 6; i++ {
+		p, ok := v.(*ssa.Parameter)
+		if !ok || fr == nil {
+			break
+		}
+		a, ok := fr.ArgOf(p)
+		if !ok {
+			break
+		}
+		v, fr = a, fr.Parent
+	}
+	s := fw.SigIn(fr, v)
+	switch {
+	case strings.Contains(s, "RoomID"):
+		return "the room id"
+	case strings.Contains(s, "Sender"):
+		return "the sender"
+	case strings.Contains(s, "StateKey"):
+		return "the state key"
+	case strings.Contains(s, ".Type") || strings.Contains(s, "Type("):
+		return "the type"
+	}
+	return s
 }
 
 // limitSites: the length comparisons (l > const) of root and of the callees `enter` admits,
@@ -404,7 +439,11 @@ func limitSites(root *ssa.Function, enter func(*ssa.Function) bool) []limitSite 
 				continue
 			}
 			kind := ""
+			subject := ""
 			if x, isCall := fw.Unwrap(bo.X).(*ssa.Call); isCall {
+				if len(x.Common().Args) == 1 {
+					subject = measuredSubject(x.Common().Args[0], di.Fr)
+				}
 				switch fw.CalleeName(x) {
 				case "unicode/utf8.RuneCountInString":
 					kind = "runes"
@@ -423,7 +462,7 @@ func limitSites(root *ssa.Function, enter func(*ssa.Function) bool) []limitSite 
 			key := fmt.Sprintf("%p|%p|%s", f.If, di.Fr, kind)
 			if !seenIf[key] {
 				seenIf[key] = true
-				sites = append(sites, limitSite{iff: f.If, fr: di.Fr, kind: kind, limit: fmt.Sprint(lim), persistSet: persist, at: di.Instr})
+				sites = append(sites, limitSite{iff: f.If, fr: di.Fr, kind: kind, limit: fmt.Sprint(lim), persistSet: persist, at: di.Instr, subject: subject})
 			}
 			break
 		}
@@ -558,8 +597,12 @@ func checkFieldsTable(c *fw.Ctx) {
 			classes[h.iff] = append(classes[h.iff], h)
 		}
 		for _, l := range ls {
-			// the routine that holds the byte-only check names the obligation
-			what := strings.TrimPrefix(fw.FuncName(l.iff.Parent()), "gmsl.")
+			// what is measured names the obligation (the routine that holds the check may be
+			// renamed or split; the field whose byte length is refused early stays the same)
+			what := l.subject
+			if what == "" {
+				what = "a value compared in " + strings.TrimPrefix(fw.FuncName(l.iff.Parent()), "gmsl.")
+			}
 			seen[what] = true
 			for _, members := range classes {
 				any := false
@@ -570,12 +613,12 @@ func checkFieldsTable(c *fw.Ctx) {
 				}
 				h := members[0]
 				if !any {
-					bad[what] = fmt.Sprintf("the persistable byte-length check at %s (reached through %s) can run before the non-persistable %s check at %s: an event that only exceeds the byte limit there but breaks a hard limit elsewhere is reported persistable", c.P.Pos(fw.InstrPos(l.iff)), what, h.kind, c.P.Pos(fw.InstrPos(h.iff)))
+					bad[what] = fmt.Sprintf("the persistable byte-length check at %s (on %s) can run before the non-persistable %s check at %s: an event that only exceeds the byte limit there but breaks a hard limit elsewhere is reported persistable", c.P.Pos(fw.InstrPos(l.iff)), what, h.kind, c.P.Pos(fw.InstrPos(h.iff)))
 				}
 			}
 		}
 		for _, what := range sortedSet(seen) {
-			construct := short + ": the byte-only limit checked through " + what + " follows every hard limit"
+			construct := short + ": the byte-only limit on " + what + " follows every hard limit"
 			if d, isBad := bad[what]; isBad {
 				c.Fail(rule, construct, c.P.Pos(ctor.Pos()), d)
 			} else {
